@@ -260,12 +260,13 @@ class PullOffSuite(PairedSuite):
 # ============================================================================= C13 / C12 / C14: sessions with humans on a line
 def line_session(rng, *, kind, inertia, ratio=1, offset=0, human_leads=None, n=None, nrows=10, max_bells=15,
                  peal=None, tempo_change=None, early_ms=0, initial_inertia=0, jitter_us=0, n_humans=None,
-                 prelude=None):
+                 prelude=None, covers=0):
     """Humans strike perfectly evenly on their own line t = A + B * blow.
     prelude = ratio: the session is the SECOND touch on the same rhythm object; in a first touch of six
     rows the same humans rang evenly at `ratio` times the configured interval, then 'Stand next'."""
     n = n or rng.choice([4, 6, 8, 10])
-    spec = {"kind": "plain_hunt", "stage": n, "custom": None}
+    # (covers > 0: the method is rung on fewer bells than the tower has; a row still lasts n blows)
+    spec = {"kind": "plain_hunt", "stage": max(2, n - covers), "custom": None}
     rows = probe_rows(spec, n, nrows)
     k = n_humans or rng.randint(max(1, -(-n // 3)), n - 1)
     humans = set(rng.sample(range(1, n + 1), k))
@@ -393,7 +394,8 @@ class OutlierSuite(PairedSuite):
         for i in range(80 if tier == "quick" else 800):
             a, orc = line_session(rng, kind="regression", inertia=rng.choice([0.0, 0.3, 0.5, 0.8]),
                                   human_leads=rng.choice([True, False]), nrows=9, n=rng.choice([6, 8, 10]),
-                                  max_bells=rng.choice([5, 8, 15, 30]), jitter_us=rng.choice([0, 100]),
+                                  # ("any dataset size": also the smallest -X values, for which no line is ever fitted)
+                                  max_bells=rng.choice([5, 8, 15, 30, 2, 3, 4]), jitter_us=rng.choice([0, 100]),
                                   n_humans=rng.choice([None, None, 1]))
             iv, n = Fraction(orc["iv"]), orc["n"]
             # "once the rhythm is settled": from the third whole row on (two or more datapoints are held)
@@ -441,7 +443,8 @@ class TempoSuite(PairedSuite):
             pre = rng.choice([None, None, Fraction(92, 100), Fraction(109, 100)])
             if mode == "exact":
                 a, orc = line_session(rng, kind="regression", inertia=0.0, ratio=ratio, offset=offset,
-                                      human_leads=leads, nrows=8, max_bells=mb, jitter_us=jit, prelude=pre)
+                                      human_leads=leads, nrows=8, max_bells=mb, jitter_us=jit, prelude=pre,
+                                      covers=rng.choice([0, 0, 1, 2, 3, 4]))
             elif mode == "geometric":
                 a, orc = line_session(rng, kind="regression", inertia=rng.choice([0.1, 0.3, 0.5]), ratio=ratio,
                                       offset=offset, human_leads=leads, nrows=16, max_bells=mb, jitter_us=jit, prelude=pre)
